@@ -178,8 +178,12 @@ def _couplings(n, nf, k, lam, scheme, m2, ref):
 
 
 def seam(kind, n, nf, k, lam, N, direction="forward", scheme="POLE", method="iterate-exact",
-         m2=100.0, q0=1.5, q1=1.0e4, fhmruvv=True):
+         m2=100.0, q0=1.5, q1=1.0e4, fhmruvv=True, remove_known_ps_hg=False):
     """The matched operator across one threshold for matching scale mu_m^2 = k m2.
+
+    remove_known_ps_hg: evaluate with the recorded defect of the polarised A_Hg^(2) taken out (its single-log
+    coefficient is off by -gamma_qg^(1),pol(N, nf=1): the element is corrected by + L gamma_qg^(1),pol(N, 1)),
+    so that everything else in the polarised light columns stays decided by the scaling oracle.
 
     forward : returns (S, NS): S 3x3 rows (Sigma, g, T_new)^(nf+1)(q1) <- columns (g, q, H)^(nf)(q0);
               NS dict mode -> scalar for a light non-singlet combination.
@@ -203,6 +207,9 @@ def seam(kind, n, nf, k, lam, N, direction="forward", scheme="POLE", method="ite
     gSp, gNp = gammas(kind, order, N, nf + 1, 10101, fhmruvv)
     if mo[0] > 0:
         AS, ANS = omes(kind, mo, N, nf, L, is_msbar)
+        if remove_known_ps_hg and kind == "ps" and mo[0] >= 2:
+            AS = AS.copy()  # the memoised array is shared
+            AS[1][2, 0] += L * gammas("ps", (2, 0), N, 1)[0][1][0, 1]
     else:
         AS, ANS = np.zeros((1, 3, 3), complex), np.zeros((1, 2, 2), complex)
     bm = {
